@@ -246,10 +246,7 @@ def mergeRc (k : Kind) (rc : Xml) (base : Xml) (mid : Option PyExc) : Out :=
   | .StoryInsert =>
     match findRequired "story" mid cs (elemId (some base) "storyID") with
     | .error e => failWith cs [] e
-    | .ok i =>
-      match storiesExc rc with
-      | some e => failWith cs [] (.crash e)
-      | none => insertDedup mid (roStoryIds cs) cs i (base.findall "story") []
+    | .ok i => insertDedup mid (roStoryIds cs) cs i (base.findall "story") []
   | .ItemInsert =>
     inStory mid cs (elemId (some base) "storyID") fun items =>
       insertBefore "item" mid items (elemId (some base) "itemID") (base.findall "item")
@@ -309,11 +306,8 @@ def mergeRc (k : Kind) (rc : Xml) (base : Xml) (mid : Option PyExc) : Out :=
     match findTarget "story" mid cs (elemId tgt "storyID") with
     | .error e => failWith cs [] e
     | .ok target =>
-      match storiesExc rc with
-      | some e => failWith cs [] (.crash e)
-      | none =>
-        insertDedup mid (roStoryIds cs) cs (target.getD cs.length)
-          ((src.map (·.findall "story")).getD []) []
+      insertDedup mid (roStoryIds cs) cs (target.getD cs.length)
+        ((src.map (·.findall "story")).getD []) []
   | .EAItemInsert =>
     inStory mid cs (elemId tgt "storyID") fun items =>
       insertBefore "item" mid items (elemId tgt "itemID") ((src.map (·.findall "item")).getD [])
